@@ -118,6 +118,32 @@ def run(ctx):
              "how_to_rerun": "%s one %s '%s' %s | %s   (EXTRA hb_* lines)" % (exe, n, prog, sch, driver),
              "anchors": ["iceoryx2-bb/lock-free/src/spmc/unrestricted_atomic.rs: the three write_cell.fetch_add(1, ..) (store, Producer::__internal_update_write_cell, UnrestrictedAtomicMgmt::__internal_update_write_cell) must acquire (AcqRel since 0bff03d); load() validates with compare_exchange(w, w, AcqRel, SeqCst)"]},
             key="seqlock:validated-read-unordered-with-cell-reuse")
+    # ---- the table of memory orderings the view-model theorem (c12_slra_atomic_monotone_used_race_free) is stated for
+    SLCODE = ["acq", "acqrel", "sc", "acqrel"]
+    allsites = {}
+    for kind_sites in r.get("sites", {}).values():
+        for site, vals in kind_sites.items():
+            allsites.setdefault(site, set()).update(vals)
+    def col(sites_, idx):
+        return sorted({v[idx] for s_ in sites_ for v in allsites.get(s_, ())})
+    scols = [col(["30"], 1), col(["31"], 1), col(["31"], 2), col(["12", "22"], 1)]
+    ctx.cov["observed_ordering_table_seqlock"] = scols
+    if all(scols):
+        if any(len(c_) != 1 for c_ in scols):
+            ctx.violation("memory-ordering table of the sequence lock could not be observed unambiguously (e.g. the fetch_adds of store and of the loan path differ)", {"observed": scols}, no_input=True)
+        else:
+            table = [c_[0] for c_ in scols]
+            if table != SLCODE:
+                rc, out = vlib.sh("%s slra %s < /dev/null" % (driver, " ".join(table)), timeout=600)
+                wit = [l for l in out.split("\n") if l.startswith("SLRAWITNESS")]
+                if wit:
+                    ctx.violation("sequence lock: memory orderings %s differ from the proved table %s; under release/acquire semantics the view model has an execution with a racy USED access: %s" % (table, SLCODE, wit[0]),
+                                  {"observed_orderings(load,cas,cas_fail,fetch_add)": table, "model_witness": wit[0],
+                                   "note": "schedule entries are thread:staleness; replay = run model/SeqLockRA.v sstep with these orderings on this schedule (coq: used_race_after)",
+                                   "how_to_rerun": "%s slra %s" % (driver, " ".join(table))})
+                else:
+                    ctx.violation("sequence lock: memory orderings %s differ from the table of theorem c12_slra_atomic_monotone_used_race_free; no failing execution found in the view model for them" % table,
+                                  {"obligation": "c12_slra_atomic_monotone_used_race_free is stated for sl_ords_code only", "observed": table}, no_input=True)
     missing = [k for k in REQUIRED if r["extra"].get(k, 0) == 0]
     if missing and not r["failed_jobs"]:
         ctx.violation("model branches never exercised by the tie (it says nothing about them): %s" % ",".join(missing), {"missing": missing}, no_input=True)
